@@ -909,7 +909,14 @@ class Executor(ExprMixin):
         r, i2, a2 = F_res(*key), F_idx(*key), F_abs(*key)
         toks = tk.fields["_tokens"]
         ext = fresh("pulled", TokSeq)
-        tk.fields["_tokens"] = z3.Concat(toks, ext)
+        nt = fresh("tokens", TokSeq)
+        jq = z3.Int("tk!q")
+        # tokens' = tokens ++ pulled, with the consequences the solver needs spelled out (instantiated definition)
+        st.assume(nt == z3.Concat(toks, ext))
+        st.assume(z3.Length(nt) == z3.Length(toks) + z3.Length(ext))
+        st.assume(z3.Implies(z3.Length(ext) == 0, nt == toks))
+        st.assume(z3.ForAll([jq], z3.Implies(z3.And(jq >= 0, jq < z3.Length(toks)), nt[jq] == toks[jq])))
+        tk.fields["_tokens"] = nt
         tk.fields["_index"] = i2
         tk.fields["_abs"] = a2
         nc = PyCache(F_cp(*key), F_ct(*key), F_ce(*key))
